@@ -1210,9 +1210,13 @@ func (s *UtxoStore) GetBindingHistoryDetail(tx mwdb.ReadTransaction, addrMgr *ke
 	return ret, nil
 }
 
-func (s *UtxoStore) ExistCreditFromTx(rtx mwdb.ReadTransaction, hash *wire.Hash) bool {
+func (s *UtxoStore) ExistCreditFromTx(rtx mwdb.ReadTransaction, hash *wire.Hash) (bool, error) {
 	nsCredits := rtx.FetchBucket(s.bucketMeta.nsCredits)
 	iter := nsCredits.NewIterator(mwdb.BytesPrefix(hash[:]))
 	defer iter.Release()
-	return iter.Next()
+	if iter.Next() {
+		return true, nil
+	}
+	// an iteration cut short by a storage error must not read as "no credit"
+	return false, iter.Error()
 }
